@@ -69,6 +69,21 @@ public:
       data = &nullData;
     }
 
+    Variant& operator=(const Variant& other)
+    {
+      if(&other != this)
+      {
+        Data* otherData = other.data;
+        if(otherData->ref)
+          Atomic::increment(otherData->ref);
+        else
+          otherData = &nullData;
+        clear();
+        data = otherData;
+      }
+      return *this;
+    }
+
     Type getType() const {return data->type;}
     bool isNull() const {return data->type == nullType;}
 
